@@ -9,7 +9,7 @@ D=/verif/seeded/$ID; mkdir -p $D
 cp $WT/MUTANT/$N/patch.diff $D/
 for f in demo_test.rs demo.sh; do [ -f $WT/MUTANT/$N/$f ] && cp $WT/MUTANT/$N/$f $D/; done
 # any helper files the demo needs (small ones only)
-for f in $WT/MUTANT/$N/*; do b=$(basename $f); case $b in patch.diff|demo_test.rs|demo.sh|meta.json) ;; *) [ -f $f ] && [ $(stat -c %s $f) -lt 200000 ] && cp $f $D/;; esac; done
+for f in $WT/MUTANT/$N/*; do b=$(basename $f); case $b in patch.diff|demo_test.rs|demo.sh|meta.json|target) ;; *) [ -f $f ] && [ $(stat -c %s $f) -lt 200000 ] && cp $f $D/; [ -d $f ] && [ $(du -sk $f | cut -f1) -lt 1000 ] && cp -r $f $D/;; esac; done
 python3 - "$WT/MUTANT/$N/meta.json" "$D/meta.json" "$ID" "$ROUND" "$CHECKS" "$res" <<'P'
 import json,sys
 src,dst,id_,rnd,checks,res=sys.argv[1:7]
